@@ -533,6 +533,30 @@ func vfC12RunOne(r *vfRun, c vfC12Case, in vfC12Input, judge bool) (obs string) 
 			synctest.Wait()
 			vfAdvance(150 * time.Millisecond) // the writer is respawned after the dead-peer backoff
 		}
+		// ... and it keeps killing every stream the node opens to it, beyond the node's re-open budget, and then
+		// talks to the node on its own stream with RPCs that want an answer
+		for i := 0; i < MaxBackoffAttempts+1; i++ {
+			att.mu.Lock()
+			o := att.out
+			att.mu.Unlock()
+			if o != nil {
+				o.Reset()
+			}
+			synctest.Wait()
+			vfAdvance(1100 * time.Millisecond)
+		}
+		if att.inAlive() {
+			tt := "t"
+			att.send(vfSubRPC("t", true))
+			att.send(vfGraftRPC("t"))
+			att.send(vfCtlRPC(&pb.ControlMessage{Ihave: []*pb.ControlIHave{{TopicID: &tt, MessageIDs: []string{"never-seen-id"}}}, Iwant: []*pb.ControlIWant{{MessageIDs: []string{"never-seen-id"}}}}))
+			synctest.Wait()
+			vfAdvance(1100 * time.Millisecond)
+		}
+		if sub2, err := n.ps.Subscribe("another-topic"); err == nil { // an announcement goes to every peer the node still has a queue for
+			sub2.Cancel()
+		}
+		synctest.Wait()
 		w.disconnect(att.ident.id, n.id())
 		synctest.Wait()
 		done2 := make(chan struct{})
